@@ -343,6 +343,9 @@ func (x *Exec) inlineCall(fi *FuncInfo, c *ast.CallExpr, st *State) *Val {
 }
 
 func (x *Exec) inlineBody(fi *FuncInfo, recv *Val, args []*Val, c *ast.CallExpr, st *State) *Val {
+	if x.vc.quiet == 0 {
+		x.inlinedKeys[fi.Key] = true
+	}
 	callerFrame := x.frame
 	var resT types.Type = fi.Obj.Type().(*types.Signature).Results()
 	fr := x.newFrame(fi)
@@ -647,7 +650,26 @@ func (x *Exec) havocModifies(st *State, m string) {
 		x.heapHavoc(st, m)
 		return
 	}
-	// unknown yet: will be resolved once the key is registered (restart)
+	// Type.field not touched so far: register it from the type declaration
+	if i := strings.Index(m, "."); i > 0 {
+		if t := x.resolveTypeName(m[:i]); t != nil {
+			if stt, ok := t.Underlying().(*types.Struct); ok {
+				var ffs []flatField
+				x.e.flatFields(stt, "", &ffs)
+				for _, ff := range ffs {
+					if ff.Path == m[i+1:] && x.e.kindOf(ff.T) != KSlice {
+						sort := SArrI
+						if x.e.kindOf(ff.T) == KBool {
+							sort = SArrB
+						}
+						x.heapGet(st, m, sort)
+						x.heapHavoc(st, m)
+						return
+					}
+				}
+			}
+		}
+	}
 	x.pendingMods[m] = true
 }
 
@@ -779,7 +801,7 @@ func (x *Exec) modelCall(key string, fn *types.Func, c *ast.CallExpr, st *State)
 		evalAll()
 		m := fn.Name()
 		if m == "Fatal" || m == "Fatalf" {
-			ioOK := x.vc.Declare("ioOK", SBool)
+			ioOK := x.heapGet(st, "g.ioOK", SBool)
 			x.oblige(st, x.top.Key+".no-abort", "no-abort", c.Pos(), "Fatal reachable: "+firstLine(x.e.srcText(c)), "false", ioOK)
 			panic(deadPanic{})
 		}
